@@ -286,10 +286,28 @@ func pointWithY(y *big.Int) (*big.Int, *big.Int) {
 func (m *M) limbStruct() *big.Int {
 	pats := []uint64{0, 0, 1, 1 << 32, 1 << 63, 0xffffffff00000000, 0x00000000ffffffff, ^uint64(0), uint64(m.rng.Uint32()) << 32}
 	t := new(big.Int)
+	if m.rng.Intn(7) == 0 { // every limb one of TWO values, 0 and w: what an OR / AND / XOR over the limbs collapses to w
+		w := []uint64{1, 1 << 63, ^uint64(0), 1 << 32, 1 << 31, 0x8000000000000001, m.rng.Uint64()}[m.rng.Intn(7)]
+		mask := 1 + m.rng.Intn(15)
+		for i := 3; i >= 0; i-- {
+			t.Lsh(t, 64)
+			if mask>>uint(i)&1 == 1 {
+				t.Or(t, new(big.Int).SetUint64(w))
+			}
+		}
+		return t
+	}
 	if m.rng.Intn(3) == 0 { // limbs RELATED to each other: what a slipped operator in an OR / XOR / AND reduction over the limbs confuses
 		a, b := m.rng.Uint64(), m.rng.Uint64()
-		if m.rng.Intn(3) == 0 {
+		switch m.rng.Intn(3) {
+		case 0:
 			a, b = uint64(m.rng.Uint32()), uint64(m.rng.Uint32())<<32
+		case 1: // sparse: one or two bits (a difference of that shape is the same as a bit pattern and as a number)
+			a = uint64(1) << uint(m.rng.Intn(64))
+			b = uint64(1) << uint(m.rng.Intn(64))
+			if m.rng.Intn(2) == 0 {
+				a |= uint64(1) << uint(m.rng.Intn(64))
+			}
 		}
 		var l [4]uint64
 		switch m.rng.Intn(4) {
@@ -438,6 +456,45 @@ func (m *M) structuredPoint() (*big.Int, *big.Int, string) {
 		} else {
 			v, cls = new(big.Int).Mod(m.limbStruct(), bigP), "limb_struct"
 		}
+		if m.rng.Intn(3) == 0 {
+			// not a coordinate but what the code first COMPUTES from the coordinates has the structured stored form:
+			// y^2, x^2, x^3 or x^3 + 7 (the final subtraction / carry of that product is where the structure bites)
+			if m.rng.Intn(2) == 0 {
+				v, cls = m.window()
+				v.Mod(v, bigP)
+			}
+			t := mulmod(v, rInvP, bigP) // the value whose stored form is v
+			switch m.rng.Intn(4) {
+			case 0:
+				if y := new(big.Int).ModSqrt(t, bigP); y != nil {
+					if x, yy := pointWithY(y); x != nil {
+						if m.rng.Intn(2) == 0 {
+							yy = new(big.Int).Sub(bigP, yy)
+						}
+						return x, yy, "y^2_stored_" + cls
+					}
+				}
+			case 1:
+				if x := new(big.Int).ModSqrt(t, bigP); x != nil {
+					if y := curveY(x); y != nil {
+						return x, y, "x^2_stored_" + cls
+					}
+				}
+			case 2:
+				if x := cbrt(t); x != nil {
+					if y := curveY(x); y != nil {
+						return x, y, "x^3_stored_" + cls
+					}
+				}
+			default:
+				if x := cbrt(new(big.Int).Mod(new(big.Int).Sub(t, big7), bigP)); x != nil {
+					if y := curveY(x); y != nil {
+						return x, y, "x^3+7_stored_" + cls
+					}
+				}
+			}
+			continue
+		}
 		if m.rng.Intn(3) != 0 {
 			if y := curveY(v); y != nil {
 				return v, y, "x_" + cls
@@ -448,10 +505,32 @@ func (m *M) structuredPoint() (*big.Int, *big.Int, string) {
 	}
 }
 
+// resultTarget returns a STORED-form value for an operation's result to land on: a third of the time a value that has
+// two representations below 2^256 (v and v + modulus: what the final conditional subtraction must tell apart), a
+// third a boundary window, a third structured limbs.
+func (m *M) resultTarget(mod *big.Int) (*big.Int, string) {
+	switch m.rng.Intn(3) {
+	case 0:
+		c := new(big.Int).Sub(bigR, mod)
+		if m.rng.Intn(2) == 0 {
+			return m.randBig(c), "two_representations"
+		}
+		return m.randBig(new(big.Int).Lsh(one, uint(1+m.rng.Intn(c.BitLen())))), "two_representations"
+	case 1:
+		t, cls := m.window()
+		return t.Mod(t, mod), cls
+	default:
+		return new(big.Int).Mod(m.limbStruct(), mod), "limb_struct"
+	}
+}
+
 // window returns a value of one of the boundary windows of a 256-bit representation: next to 0, 2^255,
 // (p+1)/2, p, 2^256 - 2^192 (top limb all ones), 2^192, 2^128, 2^64.
 func (m *M) window() (*big.Int, string) {
 	d := big.NewInt(int64(m.rng.Intn(1 << 20)))
+	if m.rng.Intn(2) == 0 { // distances of every magnitude up to a limb and a bit: 2^1 .. 2^72, not only tiny ones
+		d = m.randBig(new(big.Int).Lsh(one, uint(1+m.rng.Intn(72))))
+	}
 	half := new(big.Int).Rsh(new(big.Int).Add(bigP, one), 1)
 	switch m.rng.Intn(14) {
 	case 12, 13: // next to j * 2^256 / c for the small constants of the formulas (2, 3, 4, 8, b3 = 21): where c * v wraps
